@@ -42,6 +42,7 @@ def instances(tier):
         out.append({"kind": "unit", "gen": g, "periods": 2 if tier == "quick" else 3, "silent_from": 9})
         out.append({"kind": "matcher", "gen": g})
         out.append({"kind": "outage", "gen": g})
+        out.append({"kind": "second_session", "gen": g})
     return out
 
 
@@ -92,6 +93,8 @@ def run(ctx, p):
         return _matcher(ctx, p)
     if p["kind"] == "outage":
         return _outage(ctx, p)
+    if p["kind"] == "second_session":
+        return _second_session(ctx, p)
     g = Gen(p["gen"])
     api_level = p["kind"] == "api"
     n = p["periods"]
@@ -285,4 +288,42 @@ def _outage(ctx, p):
         ctx.check(len(hb_resets) == 1 and bool(hb_resets[0] == exp), "reset_exactly_at_deadline",
                   detail={"resets": [str(t) for t in hb_resets], "expected": str(exp)})
         for lab in ("requests_every_interval", "no_reset_when_answered", "matcher"):
+            ctx.reach(lab)
+
+
+def _second_session(ctx, p):
+    """init -> shutdown -> init on the same object: in the second session every heartbeat is answered promptly,
+    so the heartbeat must never reset the link, and requests keep their 300 s rhythm."""
+    g = Gen(p["gen"])
+    inst = Installation.simple(g.n, n_acs=1, zones_per_ac=1)
+    t_down = ctx.real("t_down", 5, 50)
+    gap = ctx.real("gap", 1, 20)
+    d = ctx.real("d", 0, 25)
+    with ApiRig(ctx, g, inst) as rig:
+        con = rig.console
+        con.answer_delay = 0
+        rig.start()
+        rig.run(1.0)
+        ctx.check(rig.init_result is True, "no_reset_when_answered", detail="first handshake failed")
+
+        async def down():
+            await rig.at.shutdown()
+
+        rig.loop.vt_call_at(t_down, lambda: rig.spawn(down()))
+        t2 = t_down + gap
+        rig.init_result = None
+        rig.start(at=t2)
+        rig.run(t2 + 0.5)
+        ctx.check(rig.init_result is True, "no_reset_when_answered", detail="second handshake failed")
+        n_close = len([1 for (ev, idx, t) in rig.net.events if ev == "close"])
+        n_req = len(con.requests)
+        # from now on heartbeat answers take d seconds (< 30 s)
+        con.answer_delay = d
+        rig.run(t2 + 700.0)
+        closes = [t for (ev, idx, t) in rig.net.events if ev == "close"][n_close:]
+        hb = [t for t, k, _ in con.requests[n_req:] if k == "version"]
+        ctx.observe("resets_in_second_session", len(closes))
+        ctx.check(closes == [], "no_reset_when_answered", detail={"resets": [str(t) for t in closes]})
+        ctx.check(len(hb) == 2 and bool(hb[0] == t2 + 300) and bool(hb[1] == t2 + 600), "requests_every_interval", detail={"requests": [str(t) for t in hb]})
+        for lab in ("reset_exactly_at_deadline", "matcher"):
             ctx.reach(lab)
